@@ -14,7 +14,7 @@ from lib.sut import cs, np
 
 ID = "C03"
 RULE = (
-    "case = valid growth-grammar network x symbol type {SX,MX} x compact {-1,0,1,2,3} x more_out x subset of positivity "
+    "case = valid growth-grammar network (1/10 with a chain of 14-25 extra links, 1/12 a 3-5-way merge star with distinct / clashing / entry-colliding names) x symbol type {SX,MX} x compact {-1,0,1,2,3} x more_out x subset of positivity "
     "options x optional symbolic parameters (link rho_crit/v_free/a, ramp C, model tau/eta/kappa/delta/T) x 2 "
     "admissible states. Oracle: NumPy step of a twin network. Non-trivial = >=2 links and >=1 origin with a queue "
     "and all compared outputs finite. Distinct = SHA-1 of the case."
